@@ -473,6 +473,7 @@ void runSpecialCase(rt::Rng rng) {
 
 int main(int argc, char **argv) {
     rt::init(argc, argv);
+    rt::cpuBudgetPerCase(240);   // single-threaded, deterministic: a case that burns 240 s of CPU time does not terminate
     int maxSteps = (int) rt::optInt("steps", 80);
     for (uint64_t c = rt::st().from; c < rt::st().from + rt::st().count; ++c) {
         rt::setCase(c);
